@@ -20,7 +20,7 @@ THEOREMS = [
 ]
 RULE = ('triples (ns, nswin, overlap) with overlap < nswin: an exhaustive small box plus seeded random triples '
         '(log-uniform sizes up to 10^7, biased to short last windows, ns <= overlap, zero overlap, 2*overlap = nswin); '
-        'each triple is run through firstlast / nwin / tscale (a subset also twice on ONE generator object, with the yielded amplitude arrays overwritten in between), firstlast_valid (even overlaps, odd ones must assert) '
+        'each triple is run through firstlast / nwin / tscale (a subset also twice on ONE generator object), firstlast_valid (even overlaps, odd ones must assert) '
         'and firstlast_splicing; a case is non-trivial when it yields >= 2 windows or ns < nswin; distinct by triple+op')
 ASSUMPTIONS = [
     'nwin is computed in float64 by the code (ceil of a float quotient); the model uses exact integers, equal for ns < 2^26',
@@ -60,8 +60,9 @@ def _impl_splice(ns, w, ov):
 
 
 def _impl_same_object(ns, w, ov):
-    """All generators consumed from ONE WindowGenerator object, twice, with the yielded amplitude arrays mutated in
-    between: the object must behave as a pure function of (ns, nswin, overlap)."""
+    """All generators consumed from ONE WindowGenerator object, twice: the object must behave as a pure function of
+    (ns, nswin, overlap) whatever was iterated before (iw counter, any cached ramp ...).  The yielded arrays are NOT
+    modified by the harness: whether they alias internal buffers is not part of C17."""
     from ibldsp.utils import WindowGenerator
     wg = WindowGenerator(ns, w, ov)
     out = []
@@ -77,8 +78,6 @@ def _impl_same_object(ns, w, ov):
         amps = []
         for f, l, a in wg.firstlast_splicing:
             amps.append(np.array(a, dtype=float))
-            a *= 0           # a caller working in place on what it was given must not disturb later calls
-            a += 7
         out.append((f'ok nwin={int(wg.nwin)} fl=' + (';'.join(f'{a},{b}' for a, b in fl) or '-') + ' ts2=' + (','.join(map(str, ts2)) or '-'),
                     vs, sl == fl, amps))
     return out
@@ -223,11 +222,10 @@ def oracle(ns, w, ov):
             try:
                 for a, b, amp in wg2.firstlast_splicing:
                     s2[a:b] += amp
-                    amp *= 0
             except Exception as e:
                 return f'firstlast_splicing (pass {rep} on the same object) raised {type(e).__name__}: {e}'
             if np.max(np.abs(s2 - 1)) > 1e-9:
-                return f'splicing amplitudes on pass {rep} over the same object sum to {s2[int(np.argmax(np.abs(s2 - 1)))]} (yielded arrays were modified by the caller in between)'
+                return f'splicing amplitudes on pass {rep} over the same object sum to {s2[int(np.argmax(np.abs(s2 - 1)))]} '
     if 2 * ov <= w and ns <= 200000:
         s = np.zeros(ns)
         try:
